@@ -196,7 +196,7 @@ func (c *StreamConn) Write(p []byte) (int, error) {
 	}
 	c.BytesWritten += int64(len(p))
 	n.mu.Unlock()
-	n.R.Log("swrite %s n=%d segs=%d", c.name, len(p), len(segs))
+	n.R.Log("swrite %s n=%d segs=%d h=%08x", c.name, len(p), len(segs), payloadHash(p))
 	return len(p), nil
 }
 
